@@ -653,4 +653,103 @@ set_option maxRecDepth 8000 in
 /-- the repaired verification rejects it (non-vacuity of `carried_tree_tamper_rejected`) -/
 example : verifyBlock toyC3 toyBswapped = false ∧ verifyBlock toyC3 { toyB with carried := [] } = false := by decide
 
+/-! ### Crypto faults (wave 6, seed C08-15)
+
+`formatBlock` and `VerifyBlock` reach key handling and ECDSA through a crypto client whose requests can fail.
+"A block formatted by the node itself always verifies" then reads: a format call either reports the failure and hands
+out no block, or the block it hands out verifies — for EVERY position of the failing request. -/
+
+/-- a format call under any crypto fault hands out nothing or a block that verifies -/
+theorem formatted_under_fault_refused_or_verifies (c : Crypto) (txids : List Bytes) (proposer : Bytes) (key : Nat)
+    (ts term num : Int) (preHash : Bytes) (tb : Int) (qc : Option Justify) (failed : List (Bytes × Bytes)) (height : Int)
+    (fail : Nat)
+    (hn : 1 ≤ txids.length) (hw : ∀ t ∈ txids, t.length = hashWidth) (hpre : preHash ≠ [])
+    (hkey : c.keyOf (c.pubJson key) = some key) (haddr : c.addrOk proposer key = true)
+    (hsign : ∀ m, c.verify key (c.signWith key m) m = true) :
+    formatBlockF c txids proposer key ts term num preHash tb qc failed height fail = none ∨
+    ∃ b, formatBlockF c txids proposer key ts term num preHash tb qc failed height fail = some b ∧
+      verifyBlock c b = true := by
+  unfold formatBlockF
+  by_cases h1 : (fail == 1) = true
+  · simp [h1]
+  · by_cases h2 : (fail == 2 && !preHash.isEmpty) = true
+    · simp [h1, h2]
+    · right
+      refine ⟨formatBlock c txids proposer key ts term num preHash tb qc failed height, ?_, ?_⟩
+      · rw [if_neg h1, if_neg h2]
+      exact formatted_verifies c txids proposer key ts term num preHash tb qc failed height hn hw hpre hkey haddr hsign
+
+/-- a request that fails ends the call: the key request always, the signature request whenever a signature is due -/
+theorem format_fault_hit_refuses (c : Crypto) (txids : List Bytes) (proposer : Bytes) (key : Nat)
+    (ts term num : Int) (preHash : Bytes) (tb : Int) (qc : Option Justify) (failed : List (Bytes × Bytes)) (height : Int)
+    (fail : Nat) (hpre : preHash ≠ []) (hf : fail = 1 ∨ fail = 2) :
+    formatBlockF c txids proposer key ts term num preHash tb qc failed height fail = none := by
+  unfold formatBlockF
+  have : preHash.isEmpty = false := by cases preHash with
+    | nil => exact absurd rfl hpre
+    | cons _ _ => rfl
+  rcases hf with h | h <;> subst h <;> simp [this]
+
+/-- with no request failing the fault model is `formatBlock` -/
+theorem format_no_fault (c : Crypto) (txids : List Bytes) (proposer : Bytes) (key : Nat)
+    (ts term num : Int) (preHash : Bytes) (tb : Int) (qc : Option Justify) (failed : List (Bytes × Bytes)) (height : Int) :
+    formatBlockF c txids proposer key ts term num preHash tb qc failed height 0 =
+      some (formatBlock c txids proposer key ts term num preHash tb qc failed height) := by
+  simp [formatBlockF]
+
+/-- What the shadowed error of seed C08-15 hands out: the formatted block without its signature.  It does not verify
+as soon as the empty string is no signature of the id (the oracle `formatted-under-crypto-fault-unverifiable` is not
+vacuous). -/
+theorem unsigned_formatted_rejected (c : Crypto) (txids : List Bytes) (proposer : Bytes) (key : Nat)
+    (ts term num : Int) (preHash : Bytes) (tb : Int) (qc : Option Justify) (failed : List (Bytes × Bytes)) (height : Int)
+    (hempty : ∀ k m, c.verify k [] m = false) :
+    verifyBlock c { formatBlock c txids proposer key ts term num preHash tb qc failed height with sign := [] } = false := by
+  unfold verifyBlock verifySig
+  simp only [Bool.and_eq_false_iff]
+  right
+  cases c.keyOf (formatBlock c txids proposer key ts term num preHash tb qc failed height).pubkey with
+  | none => rfl
+  | some k => simp [hempty]
+
+/-- a failing request never makes a block pass: whatever `VerifyBlock` accepts under a fault it accepts without -/
+theorem verify_fault_never_accepts_more (c : Crypto) (b : Block) (fail : Nat)
+    (h : verifyBlockF c b fail = true) : verifyBlock c b = true := by
+  unfold verifyBlockF at h
+  unfold verifyBlock
+  simp only [Bool.and_eq_true] at h ⊢
+  refine ⟨h.1, ?_⟩
+  have hs := h.2
+  unfold verifySigF at hs
+  unfold verifySig
+  by_cases h1 : (fail == 1) = true
+  · simp [h1] at hs
+  · rw [if_neg h1] at hs
+    cases hk : c.keyOf b.pubkey with
+    | none => simp [hk] at hs
+    | some k =>
+      simp only [hk, Bool.and_eq_true] at hs ⊢
+      exact ⟨hs.1.2, hs.2.2⟩
+
+/-- a block whose key, address or signature request failed is refused -/
+theorem verify_fault_hit_rejects (c : Crypto) (b : Block) (fail : Nat) (h1 : 1 ≤ fail) (h3 : fail ≤ 3) :
+    verifySigF c b fail = false := by
+  unfold verifySigF
+  have : fail = 1 ∨ fail = 2 ∨ fail = 3 := by omega
+  rcases this with h | h | h <;> subst h
+  · simp
+  · cases c.keyOf b.pubkey <;> simp
+  · cases c.keyOf b.pubkey <;> simp
+
+/-- with no request failing the fault model is `verifyBlock` -/
+theorem verify_no_fault (c : Crypto) (b : Block) : verifyBlockF c b 0 = verifyBlock c b := by
+  unfold verifyBlockF verifyBlock verifySigF verifySig
+  cases c.keyOf b.pubkey <;> simp
+
+/-- hence every rejection theorem above holds under every fault: a mutant that `verifyBlock` refuses is refused -/
+theorem rejected_stays_rejected_under_fault (c : Crypto) (b : Block) (fail : Nat)
+    (h : verifyBlock c b = false) : verifyBlockF c b fail = false := by
+  cases hf : verifyBlockF c b fail with
+  | false => rfl
+  | true => rw [verify_fault_never_accepts_more c b fail hf] at h; exact absurd h (by decide)
+
 end XV.C08
